@@ -189,7 +189,7 @@ mod __verif_kani {
     //@ kind=B props=C04 bound=start=58,valid_bits=62 fn=find_close_in_word_fast : start and end inside the last byte
     word_fast_case!(c04_find_close_in_word_fast_58_62, 58usize, 62usize);
 
-    //@ kind=B props=C04 bound=1_word,len=21 fn=BalancedParens::{new,find_close,find_open,enclose} : every 21-bit parenthesis string (one symbolic word, bits past len arbitrary) and every p: find_close / find_open / enclose == the naive excess scan; exercises the FromL0/ScanWord/CheckL* state machine on its smallest instance
+    //@ kind=B props=C04 tier=thorough bound=1_word,len=21 fn=BalancedParens::{new,find_close,find_open,enclose} : every 21-bit parenthesis string (one symbolic word, bits past len arbitrary) and every p: find_close / find_open / enclose == the naive excess scan; exercises the FromL0/ScanWord/CheckL* state machine on its smallest instance
     #[kani::proof]
     #[kani::unwind(24)]
     pub fn c04_bp_one_word_find() {
